@@ -197,7 +197,11 @@ func (r *FeatureLocal) addPendingApproval(msg *api.Message) {
 
 	ski := msg.DeviceRemote.Ski()
 
-	newTimer := time.AfterFunc(r.writeTimeout, func() {
+	r.muxResponseCB.Lock()
+	writeTimeout := r.writeTimeout
+	r.muxResponseCB.Unlock()
+
+	newTimer := time.AfterFunc(writeTimeout, func() {
 		r.muxResponseCB.Lock()
 		delete(r.pendingWriteApprovals[ski], *msg.RequestHeader.MsgCounter)
 		r.muxResponseCB.Unlock()
@@ -274,6 +278,9 @@ func (r *FeatureLocal) ApproveOrDenyWrite(msg *api.Message, err model.ErrorType)
 }
 
 func (r *FeatureLocal) SetWriteApprovalTimeout(duration time.Duration) {
+	r.muxResponseCB.Lock()
+	defer r.muxResponseCB.Unlock()
+
 	r.writeTimeout = duration
 }
 
